@@ -1,5 +1,7 @@
 package res
 
+import "sync"
+
 type work struct {
 	s      *Service
 	wid    string // Worker ID for the work queue
@@ -9,10 +11,10 @@ type work struct {
 
 // startWorker starts a new resource worker that will listen for resources to
 // process requests on.
-func (s *Service) startWorker() {
+func (s *Service) startWorker(wg *sync.WaitGroup) {
 	s.mu.Lock()
 	defer s.mu.Unlock()
-	defer s.wg.Done()
+	defer wg.Done()
 	// workqueue being nil signals we the service is closing
 	for s.workqueue != nil {
 		for len(s.workqueue) == 0 {
